@@ -516,6 +516,10 @@ func checkDiffCost(cfg *world.Config, o, n *version) []explore.Finding {
 			sig := fmt.Sprintf("C15|%s|%s|reads-exceed-2D+2", api, cls)
 			if o.link == n.link {
 				sig = fmt.Sprintf("C15|%s|same-version-read-nodes", api)
+			} else if onlyRootsOfCommonSubtrees(cfg, o, n, names) {
+				// every node read beyond the differing ones is the root of a common subtree hanging directly below a
+				// node that differs; nothing inside a common subtree was read (see KNOWN_FINDINGS.txt)
+				sig = fmt.Sprintf("C15|%s|reads-exceed-2D+2|extra-reads-are-roots-of-common-subtrees-directly-below-differing-nodes", api)
 			}
 			out = append(out, explore.Finding{Sig: sig, What: api + " read more distinct nodes than the bound for the number of differing nodes", Detail: fmt.Sprintf("old %v new %v: D=%d bound=%d distinct loads=%d", o.c, n.c, D, bound, len(names))})
 		}
@@ -564,7 +568,9 @@ func checkDiffCost(cfg *world.Config, o, n *version) []explore.Finding {
 				if o.link == n.link {
 					bound = 0
 				}
-				if len(names) > bound {
+				if len(names) > bound && o.link != n.link && onlyRootsOfCommonSubtrees(cfg, o, n, names) {
+					out = append(out, explore.Finding{Sig: "C15|DiffIter|reads-exceed-2D+2|extra-reads-are-roots-of-common-subtrees-directly-below-differing-nodes", What: "DiffIter read more distinct nodes than the bound for the number of differing nodes", Detail: fmt.Sprintf("old %v new %v: D=%d bound=%d distinct loads=%d (old version through a mirror store)", o.c, n.c, D, bound, len(names))})
+				} else if len(names) > bound {
 					out = append(out, explore.Finding{Sig: fmt.Sprintf("C15|DiffIter|old-version-through-a-mirror-store|%s|reads-exceed-2D+2", cls), What: "DiffIter against the old version opened through another store handle holding the same nodes read more distinct nodes than the bound", Detail: fmt.Sprintf("old %v new %v: D=%d bound=%d distinct loads=%d", o.c, n.c, D, bound, len(names))})
 				}
 			}
@@ -986,9 +992,12 @@ func C15(run *report.Run) {
 		acc := &pairAcc{}
 		if run.Thorough() {
 			tallC15(run, acc, 8300, 37)
+			wideC15(run, acc, 7, 4)
 		} else {
 			tallC15(run, acc, 4200, 101)
 		}
+		wideC15(run, acc, 5, 4)
+		wideC15(run, acc, 4, 16)
 		acc.flush(run)
 	}
 	runVersionPairsSerial(run, "C15", versionConfigs(run.Thorough()), checkDiffCost)
@@ -1102,6 +1111,15 @@ func c06CallHistories(run *report.Run, cfg *world.Config, states []*builtState, 
 						dc.NextEntry(ctx)
 					}
 				}},
+				{"DiffIter of another pair stopped by its callback at the first difference", func() {
+					other.t.DiffIter(ctx, od.t, func(a, r bool, k, av, rv interface{}) (bool, error) { return false, nil })
+				}},
+				{"DiffIter of the reversed pair whose callback returned an error at the first difference", func() {
+					od.t.DiffIter(ctx, nw.t, func(a, r bool, k, av, rv interface{}) (bool, error) { return false, env.ErrInjected })
+				}},
+				{"DiffLinks of another pair stopped by its callback at the first node", func() {
+					nw.t.DiffLinks(ctx, other.t, func(r bool, l interface{}) (bool, error) { return false, nil })
+				}},
 			} {
 				guardRes(func() error { pre.f(); return nil })
 				n++
@@ -1111,9 +1129,131 @@ func c06CallHistories(run *report.Run, cfg *world.Config, states []*builtState, 
 					fs[k].Sig += "|after-an-earlier-diff-call"
 				}
 				acc.add(cfg, "C06", fs, append(pairHist(cfg, od.hist, nw.hist), "the entry diff was taken right after "+pre.name))
+				if j == (i+1)%len(states) {
+					// and (once per old tree) the diff against no old tree at all, right after the same earlier call
+					guardRes(func() error { pre.f(); return nil })
+					n++
+					fs := checkEntryDiff(cfg, nil, nw.t, world.Contents{M: map[int]int{}}, nw.c, "old=nil,new="+sideClass(nw.c, nw.t, nw.hist), false)
+					for k := range fs {
+						fs[k].Sig += "|after-an-earlier-diff-call"
+					}
+					acc.add(cfg, "C06", fs, append(pairHist(cfg, nil, nw.hist), "the entry diff against a nil old tree was taken right after "+pre.name))
+				}
 			}
 		}
 	}
 	run.Parts = append(run.Parts, map[string]interface{}{"part": "call histories (serial): entry diff judged right after another diff call", "config": cfg.Name, "states": len(states), "observations": n})
 	return n
+}
+
+// onlyRootsOfCommonSubtrees classifies a diff that read more than 2*D+2 distinct nodes: true iff every
+// node that was read and belongs to both versions has, in at least one of the two versions, a parent that
+// belongs to that version only. Such a node is the root of a maximal common subtree; nothing strictly
+// inside a common subtree was read.
+func onlyRootsOfCommonSubtrees(cfg *world.Config, o, n *version, loaded map[string]bool) bool {
+	codec := codecFor(cfg)
+	children := func(v *version, other *version) map[string]bool {
+		// names that are a direct child of a node exclusive to v
+		out := map[string]bool{}
+		for name := range v.reach {
+			if other.reach[name] {
+				continue
+			}
+			b, ok := v.w.Store.Has(name)
+			if !ok {
+				continue
+			}
+			rn, err := codec.Decode(b)
+			if err != nil {
+				continue
+			}
+			for _, l := range rn.Links {
+				if l != "" {
+					out[l] = true
+				}
+			}
+		}
+		return out
+	}
+	belowOld, belowNew := children(o, n), children(n, o)
+	for name := range loaded {
+		if o.reach[name] && n.reach[name] && !belowOld[name] && !belowNew[name] {
+			return false
+		}
+		if !o.reach[name] && !n.reach[name] {
+			return false // read something that belongs to neither version
+		}
+	}
+	return true
+}
+
+// wideC15: nodes with several keys whose separators all move. Leaves L0..Lk (two layer-0 keys each) and, between
+// consecutive leaves, two candidate layer-1 separators s_p < t_p; a version holds every leaf and, per position,
+// one of the two separators (2^k versions, one top node each, all leaves common to all versions). Every ordered
+// pair. This is where a top node differs in many keys while everything below it is shared.
+func wideC15(run *report.Run, acc *pairAcc, k int, bf uint) {
+	var layers []uint8
+	for p := 0; p < k; p++ {
+		layers = append(layers, 0, 0, 1, 1)
+	}
+	layers = append(layers, 0, 0)
+	cfg := world.LKeyCfg(bf, layers, 1, ref.FormatBinary, "none")
+	cfg.Name = fmt.Sprintf("wide-node/%d separator positions/bf%d", k, bf)
+	w, err := world.New(cfg)
+	if err != nil {
+		run.HarnessError("wide: %v", err)
+		return
+	}
+	codec := codecFor(cfg)
+	var vs []*version
+	for mask := 0; mask < 1<<k; mask++ {
+		t, err := mast.NewRoot(cfg.CreateOptions()).LoadMast(ctx, w.RemoteConfig(w.Store, false))
+		if err != nil {
+			run.HarnessError("wide: %v", err)
+			return
+		}
+		c := world.Contents{M: map[int]int{}}
+		ins := func(i int) {
+			if err == nil {
+				err = t.Insert(ctx, cfg.FreshKey(i), cfg.FreshVal(0))
+				c.M[i] = 0
+			}
+		}
+		for p := 0; p <= k; p++ {
+			ins(4 * p)
+			ins(4*p + 1)
+			if p < k {
+				ins(4*p + 2 + (mask >> p & 1))
+			}
+		}
+		var root *mast.Root
+		if err == nil {
+			root, err = t.MakeRoot(ctx)
+		}
+		if err != nil {
+			acc.add(cfg, "C15", []explore.Finding{{Sig: "C15|wide-node|version-cannot-be-built|" + report.Norm(err.Error()), What: "building a version on a healthy store failed", Detail: err.Error()}}, []string{cfg.Name})
+			return
+		}
+		c.Size = uint64(len(c.M))
+		lt, err := root.LoadMast(ctx, w.RemoteConfig(w.Store, false))
+		if err != nil {
+			return
+		}
+		reach, err := codec.Reach(cfg.KS, storeGet(w.Store), linkOf(root))
+		if err != nil {
+			return
+		}
+		vs = append(vs, &version{w: w, t: lt, root: root, link: linkOf(root), reach: reach, c: c})
+	}
+	var pairs int64
+	for _, o := range vs {
+		for _, n := range vs {
+			pairs++
+			acc.add(cfg, "C15", checkDiffCost(cfg, o, n), []string{cfg.Name, fmt.Sprintf("old version %v", o.c), fmt.Sprintf("new version %v", n.c)})
+		}
+	}
+	run.Parts = append(run.Parts, map[string]interface{}{"config": cfg.Name, "versions": len(vs), "ordered_pairs": pairs, "height": vs[0].root.Height})
+	run.Transitions += pairs
+	run.Evals += pairs
+	run.Distinct += pairs
 }
